@@ -1,29 +1,46 @@
 import BoltonsVerif.Common
 import BoltonsVerif.C15.Model
 import BoltonsVerif.C15.Session
+import BoltonsVerif.C15.B64
 /-
 C15 line protocol.  One line = one call:
 
     <inst> <fn> <start> <stop> <count> <factor> <jitter> <take> <draws>
 
-  inst    `F` = Float instance (IEEE double, bit for bit), `Q` = Rat instance (exact)
+  inst    `F` = Float instance (IEEE double, bit for bit), `Q` = Rat instance (exact),
+          `D` = B64 instance (the natural-number model of non-negative binary64 arithmetic the
+          `b64_*` theorems are about; parameters must be finite with a clear sign bit)
   fn      `I` = backoff_iter, `L` = backoff
   start, stop, factor, jitter, draws   doubles as 16 hex digits (big-endian bit pattern);
           draws = comma separated scripted `random.random()` results, `-` = none
           (positions past the end of the script draw 0)
-  count   `N` (None), `R` ('repeat') or a decimal integer
+  count   `N` (None), `R` ('repeat') or a decimal integer; `N<m>` = None and the implementation produced `m`
+          values: judged as count=m when m is at least the model's minimal default count (`acceptCount`)
   take    how many values of an endless generator are printed
 
 Output:  `err ValueError` | `fuel` | `ok v,v,…` (`ok -` when empty) | `rep v,v,…`
-  values: `F` → 16 hex digits; `Q` → `num/den` in lowest terms
+  values: `F` → 16 hex digits (a zero of either sign prints as +0: the statement is about real
+  values); `Q` → `num/den` in lowest terms
+
+ACCEPTANCE MODE (calls with jitter): a tenth field `<observed>` = the values the implementation
+yielded (comma separated, `-` = none, `X` = not a number).  The draws are then ignored: the
+model computes the outcome of the call (ValueError for a bad jitter …) and the UN-jittered
+delays `b_i`, and judges every observed value by the statement's own clause `jitAccept`
+(between `b_i` and `b_i*(1-j)`; exact on `Q`, with the slack `tolF` on `F`).
+Output: `ok <marks> base ok v,v,…` | `rep <marks> base rep v,v,…` | `err ValueError` | `fuel`
+  marks: one `~` (accepted) or `!` (rejected) per value, `-` for none, `len:<n>` when the number
+  of observed values is not the model's `n`
 
 or one whole SESSION of one caller (several calls, see Session.lean):
 
     S|<inst>|<op>;<op>;…
 
-  op   `L <start> <stop> <count> <factor> <jitter> <draws>`   `backoff(...)`, creates object number (calls so far)
+  op   `L <start> <stop> <count> <factor> <jitter> <draws> [<observed>]`   `backoff(...)`, creates object number (calls so far)
        `I <start> <stop> <count> <factor> <jitter> <draws>`   `backoff_iter(...)`, likewise
-       `P <k> <n>`      `next()` n times on object k
+       `P <k> <n> [<observed>]`      `next()` n times on object k
+       (objects of calls with jitter: the model runs with every draw 0, so its values are the
+        un-jittered delays; `<observed>` values are judged by `jitAccept` and shown as marks, a
+        jittered list looked at again is shown as one `~` per element)
        `M <k> pop0|pop|clear|rev|keep1|app <x>|set0 <x>`      the caller changes list k
        `R <k>`          the caller looks at list k again
 Output: the observations joined by ` ; `:  `ok v,…` | `err ValueError` | `fuel` | `gen` |
@@ -58,8 +75,11 @@ def ratOfBits (b : UInt64) : Option Rat :=
 
 def showRat (q : Rat) : String := s!"{q.num}/{q.den}"
 
-def parseCount? (s : String) : Option Count :=
-  if s = "N" then some .dflt else if s = "R" then some .rep else s.toInt?.map .num
+/-- `N` (None), `N<m>` (None, and the implementation produced `m` values), `R` ('repeat') or an integer -/
+def parseCount? (s : String) : Option (Count × Option Nat) :=
+  if s = "N" then some (.dflt, none) else if s = "R" then some (.rep, none)
+  else if s.startsWith "N" then (s.drop 1).toNat?.map fun m => (.dflt, some m)
+  else s.toInt?.map fun k => (.num k, none)
 
 def listM? {β γ : Type} (f : β → Option γ) : List β → Option (List γ)
   | [] => some []
@@ -73,13 +93,53 @@ section
 variable {α : Type} [LE α] [LT α] [DecidableLE α] [DecidableLT α] [BEq α]
   [Mul α] [Sub α] [Neg α] [OfNat α 0] [OfNat α 1]
 
-def runCase (parse : String → Option α) (shw : α → String)
-    (fn start stop count factor jitter take draws : String) : String :=
+/-- the parameters of a call; a default-count call for which the implementation produced `m` values is judged
+    as `acceptCount` says -/
+def mkParams (st sp : α) (c : Count) (m? : Option Nat) (f j : α) : Params α :=
+  let p : Params α := { start := st, stop := sp, factor := f, count := c, jitter := j }
+  match m? with
+  | some m => acceptCount fuel p m
+  | none => p
+
+/-- observed values as sent by the harness: `-` = none; a token that is not a number parses to `none` -/
+def parseObserved (parse : String → Option α) (s : String) : List (Option α) :=
+  if s = "-" then [] else (splitOnChar s ',').map parse
+
+/-- one mark per observed value: `~` accepted / `!` rejected by the statement's jitter clause against the
+    model's un-jittered delays `bs`; `len:<n>` when their number differs from the model's -/
+def marks (toRat : α → Option Rat) (slack : Bool) (j : α) (ws : List (Option α)) (bs : List α) : String :=
+  if ws.length ≠ bs.length then s!"len:{bs.length}" else
+  if bs.isEmpty then "-" else
+  ",".intercalate ((ws.zip bs).map fun (w, b) =>
+    match w.bind toRat, toRat b, toRat j with
+    | some w, some b, some j => if jitAccept (if slack then tolF b j else 0) b j w then "~" else "!"
+    | _, _, _ => "!")
+
+/-- a call in acceptance mode: outcome kind from the call as made, values from the same call with jitter off -/
+def runCaseJ (shw : α → String) (toRat : α → Option Rat) (slack : Bool) (fn : String) (p : Params α)
+    (tk : Nat) (ws : List (Option α)) : String :=
+  let r0 : Nat → α := fun _ => 0
+  let run (q : Params α) : Option (Outcome α) :=
+    if fn = "I" then some (backoffIter fuel r0 q) else if fn = "L" then some (backoff fuel r0 q) else none
+  let shows (l : List α) : String := if l.isEmpty then "-" else ",".intercalate (l.map shw)
+  match run p, run { p with jitter := 0 } with
+  | none, _ => "bad-op"
+  | some .valueError, _ => "err ValueError"
+  | some .fuelOut, _ => "fuel"
+  | some (.finite _), some (.finite bs) => "ok " ++ marks toRat slack p.jitter ws bs ++ " base ok " ++ shows bs
+  | some (.endless _), some (.endless val) =>
+    let bs := (List.range tk).map val
+    "rep " ++ marks toRat slack p.jitter ws bs ++ " base rep " ++ shows bs
+  | _, _ => "bad-op"
+
+def runCase (parse : String → Option α) (shw : α → String) (toRat : α → Option Rat) (slack : Bool)
+    (fn start stop count factor jitter take draws : String) (observed : Option String) : String :=
   match parse start, parse stop, parseCount? count, parse factor, parse jitter, take.toNat?,
         (if draws = "-" then some [] else listM? parse (splitOnChar draws ',')) with
-  | some st, some sp, some c, some f, some j, some tk, some rs =>
-    let p : Params α := { start := st, stop := sp, factor := f, count := c, jitter := j }
+  | some st, some sp, some (c, m?), some f, some j, some tk, some rs =>
+    let p : Params α := mkParams st sp c m? f j
     let r : Nat → α := fun i => rs.getD i 0
+    if let some o := observed then runCaseJ shw toRat slack fn p tk (parseObserved parse o) else
     let out := if fn = "I" then some (backoffIter fuel r p) else if fn = "L" then some (backoff fuel r p) else none
     let shows (l : List α) : String := if l.isEmpty then "-" else ",".intercalate (l.map shw)
     match out with
@@ -99,24 +159,36 @@ def parseMut? (parse : String → Option α) : List String → Option (Mut α)
   | ["set0", x] => (parse x).map .set0
   | _ => none
 
-def parseOp? (parse : String → Option α) : List String → Option (Op α)
+/-- an operation and, in acceptance mode, the values the implementation showed for it -/
+def parseOp? (parse : String → Option α) : List String → Option (Op α × Option (List (Option α)))
   | [fn, start, stop, count, factor, jitter, draws] =>
     match parse start, parse stop, parseCount? count, parse factor, parse jitter,
           (if draws = "-" then some [] else listM? parse (splitOnChar draws ',')) with
-    | some st, some sp, some c, some f, some j, some rs =>
-      let p : Params α := { start := st, stop := sp, factor := f, count := c, jitter := j }
+    | some st, some sp, some (c, m?), some f, some j, some rs =>
+      let p : Params α := mkParams st sp c m? f j
       let r : Nat → α := fun i => rs.getD i 0
-      if fn = "L" then some (.callL p r) else if fn = "I" then some (.callI p r) else none
+      if fn = "L" then some (.callL p r, none) else if fn = "I" then some (.callI p r, none) else none
     | _, _, _, _, _, _ => none
+  | [fn, start, stop, count, factor, jitter, _draws, observed] =>
+    match parse start, parse stop, parseCount? count, parse factor, parse jitter with
+    | some st, some sp, some (c, m?), some f, some j =>
+      let p : Params α := mkParams st sp c m? f j
+      if fn = "L" then some (.callL p (fun _ => 0), some (parseObserved parse observed))
+      else if fn = "I" then some (.callI p (fun _ => 0), some (parseObserved parse observed)) else none
+    | _, _, _, _, _ => none
   | ["P", k, n] =>
     match k.toNat?, n.toNat? with
-    | some k, some n => some (.pull k n)
+    | some k, some n => some (.pull k n, none)
+    | _, _ => none
+  | ["P", k, n, observed] =>
+    match k.toNat?, n.toNat? with
+    | some k, some n => some (.pull k n, some (parseObserved parse observed))
     | _, _ => none
   | "M" :: k :: rest =>
     match k.toNat?, parseMut? parse rest with
-    | some k, some m => some (.chg k m)
+    | some k, some m => some (.chg k m, none)
     | _, _ => none
-  | ["R", k] => k.toNat?.map .read
+  | ["R", k] => k.toNat?.map fun k => (.read k, none)
   | _ => none
 
 def showObs (shw : α → String) : Obs α → String
@@ -129,32 +201,79 @@ def showObs (shw : α → String) : Obs α → String
   | .skip => "skip"
   | .badIndex => "bad-op"
 
-def runSession (parse : String → Option α) (shw : α → String) (ops : String) : String :=
+/-- what is printed for one observation; `j?` = the jitter of the object the operation concerns when that
+    object came from a call in acceptance mode (its model values are the un-jittered delays) -/
+def showObsJ (shw : α → String) (toRat : α → Option Rat) (slack : Bool) (j? : Option α)
+    (observed : Option (List (Option α))) (o : Obs α) : String :=
+  match j?, o with
+  | some j, .vals l =>
+    match observed with
+    | some ws => "ok " ++ marks toRat slack j ws l
+    | none => "ok " ++ (if l.isEmpty then "-" else ",".intercalate (l.map fun _ => "~"))
+  | some j, .pulled l e =>
+    "vals " ++ marks toRat slack j (observed.getD []) l ++ (if e then " end" else " more")
+  | _, o => showObs shw o
+
+def renderSession (shw : α → String) (toRat : α → Option Rat) (slack : Bool) (js : List (Option α)) :
+    Nat → List (Op α × Option (List (Option α))) → List (Obs α) → List String
+  | ncalls, (op, observed) :: ops, o :: obs =>
+    let (k, ncalls') := match op.target with
+      | some k => (k, ncalls)
+      | none => (ncalls, ncalls + 1)
+    showObsJ shw toRat slack ((js.getD k none)) observed o :: renderSession shw toRat slack js ncalls' ops obs
+  | _, _, _ => []
+
+def runSession (parse : String → Option α) (shw : α → String) (toRat : α → Option Rat) (slack : Bool)
+    (ops : String) : String :=
   match listM? (fun o => parseOp? parse (words o)) (splitOnChar ops ';') with
-  | some ops =>
-    let obs := (run fuel [] ops).map (showObs shw)
+  | some opsx =>
+    let ops := opsx.map (·.1)
+    -- an object is in acceptance mode iff its call carried observed values
+    let js : List (Option α) := (opsx.filter fun x => x.1.target.isNone).map fun x =>
+      match x.2, x.1 with
+      | some _, .callL p _ => some p.jitter
+      | some _, .callI p _ => some p.jitter
+      | _, _ => none
+    let obs := renderSession shw toRat slack js 0 opsx (run fuel [] ops)
     if obs.contains "bad-op" then "bad-op" else " ; ".intercalate obs
   | none => "bad-op"
 end
 
+/-- doubles are printed by bit pattern, a zero of either sign as +0 -/
+def showFloat (x : Float) : String := if x == 0 then "0000000000000000" else toHex64 x.toBits
+
+def parseFloat (s : String) : Option Float := (hex64? s).map Float.ofBits
+def parseRat (s : String) : Option Rat := (hex64? s).bind ratOfBits
+def floatToRat (x : Float) : Option Rat := ratOfBits x.toBits
+
+/-- `D` instance: finite non-negative doubles only -/
+def parseB64 (s : String) : Option B64 :=
+  (hex64? s).bind fun b => if b.toNat < B64.INF then some ⟨b.toNat⟩ else none
+def showB64 (x : B64) : String := toHex64 (UInt64.ofNat x.bits)
+def b64ToRat (x : B64) : Option Rat := ratOfBits (UInt64.ofNat x.bits)
+
+def handleCase (inst fn start stop count factor jitter take draws : String) (observed : Option String) : String :=
+  if inst = "F" then
+    runCase (α := Float) parseFloat showFloat floatToRat true fn start stop count factor jitter take draws observed
+  else if inst = "Q" then
+    runCase (α := Rat) parseRat showRat some false fn start stop count factor jitter take draws observed
+  else if inst = "D" then
+    runCase (α := B64) parseB64 showB64 b64ToRat true fn start stop count factor jitter take draws observed
+  else "bad-op"
+
 def handle (line : String) : String :=
   match splitOnChar line '|' with
   | ["S", inst, ops] =>
-    if inst = "F" then
-      runSession (α := Float) (fun s => (hex64? s).map Float.ofBits) (fun x => toHex64 x.toBits) ops
-    else if inst = "Q" then
-      runSession (α := Rat) (fun s => (hex64? s).bind ratOfBits) showRat ops
+    if inst = "F" then runSession (α := Float) parseFloat showFloat floatToRat true ops
+    else if inst = "Q" then runSession (α := Rat) parseRat showRat some false ops
+    else if inst = "D" then runSession (α := B64) parseB64 showB64 b64ToRat true ops
     else "bad-op"
   | _ =>
   match words line with
   | [inst, fn, start, stop, count, factor, jitter, take, draws] =>
-    if inst = "F" then
-      runCase (α := Float) (fun s => (hex64? s).map Float.ofBits) (fun x => toHex64 x.toBits)
-        fn start stop count factor jitter take draws
-    else if inst = "Q" then
-      runCase (α := Rat) (fun s => (hex64? s).bind ratOfBits) showRat
-        fn start stop count factor jitter take draws
-    else "bad-op"
+    handleCase inst fn start stop count factor jitter take draws none
+  | [inst, fn, start, stop, count, factor, jitter, take, draws, observed] =>
+    handleCase inst fn start stop count factor jitter take draws (some observed)
   | _ => "bad-op"
 
 end C15.Driver
